@@ -141,6 +141,24 @@ func (e *Engine) registerCodecExterns(reg regFn) {
 			return one(st, Val{T: loc, Ty: c.Signature().Results().At(0).Type()})
 		}, "alloc", "gh:rem")
 
+	reg("bytes.(*Reader).Len", "(*bytes.Reader).Len(): the number of unread bytes", func(x *Exec, st *State, fr *frame, c *ssa.CallCommon, args []Val, pos token.Pos) []callOut {
+		x.e.needBytes()
+		st.groups["bytes"] = true
+		r := Val{T: "(blen " + st.ghostRead(st.ghost("rem"), st.term(args[0])) + ")", Ty: intT}
+		return one(st, r)
+	})
+	reg("encoding/binary.(littleEndian).PutUint16", "binary.LittleEndian.PutUint16(b, v): panics unless len(b) >= 2; writes the little-endian bytes of v to b[0:2]",
+		func(x *Exec, st *State, fr *frame, c *ssa.CallCommon, args []Val, pos token.Pos) []callOut {
+			x.e.needBytes()
+			st.groups["bytes"] = true
+			b, v := args[len(args)-2], args[len(args)-1]
+			x.obligeAt(st, fr, "index-bounds", pos, "PutUint16", "(>= (s_len "+b.T+") 2)")
+			st.assume("(>= (s_len " + b.T + ") 2)")
+			W := st.name("W", "Bytes", st.window(b.T))
+			st.writeWindow(b.T, "(bcat (le2 "+v.T+") (bdrop "+W+" 2))")
+			return one(st, Val{})
+		}, "E:uint8")
+
 	// ---- reflect, as used by decode(*Fcall): rv := reflect.New(reflect.TypeOf(message)); rv.Interface(); rv.Elem().Interface()
 	reg("reflect.TypeOf", "reflect.TypeOf(v): the dynamic type of v", func(x *Exec, st *State, fr *frame, c *ssa.CallCommon, args []Val, pos token.Pos) []callOut {
 		if args[0].Dyn == nil {
